@@ -2,5 +2,6 @@
 export GOFLAGS=-mod=mod
 export GOPROXY=off
 export GOTOOLCHAIN=auto
-export VERIF_DIR="${VERIF_DIR:-/verif}"
+# the tree this script lives in (a snapshot of /verif works from wherever it is)
+export VERIF_DIR="${VERIF_DIR:-$(cd "$(dirname "${BASH_SOURCE[0]}")/.." && pwd)}"
 export VERIF_REPO="${VERIF_REPO:-/repo}"
